@@ -79,6 +79,11 @@ class C12(Monitor):
             complete = bool(lo and lo.get("cfg") and lo["cfg"].get("is_complete"))
             stale_lock = self._killed_lock_holder(sub)
             if not complete:
+                if any(v.killed and v.kill_reason != "reap" and w.in_submitter_subtree(v) for v in w.vprocs):
+                    # the walltime / node failure hit a node while its closing try-submit-jobs held
+                    # the role: a killed submitter is C11's subject, not C12's
+                    w.probe("node_killed_while_submitter")
+                    continue
                 if stale_lock:
                     self.bad("stuck_on_killed_holder_lock",
                              "collector times out on a node results lock whose holder was killed",
@@ -244,11 +249,17 @@ class C11Durability(Monitor):
                 continue
             have = set()
             raw = []
+            # after an injected write failure a file may be torn (even so that it still parses,
+            # with a fragment glued to the next row's name): there the row's bytes count
+            torn = any(f["kind"] == "write_fail" for f in self.w.faults.fired)
             for p in state.node_result_files(sub.out) + [os.path.join(sub.out, "processed_results.csv")]:
+                unparsable = False
                 try:
                     for r in state.read_rows(p) or []:
                         have.add(_rk(r))
                 except state.Unparsable:
+                    unparsable = True
+                if unparsable or torn:
                     try:
                         with open(p) as f:
                             raw.append(f.read())
